@@ -275,8 +275,14 @@ def _sequence(osy, rng, res, i):
     wa = osy.Array(values=rng.integers(1, 9, size=n).astype(float), unit="K", name="wa")
     hl = Layer(wa, operation="mean", cmap="magma")
     lim = 2.0 * osy.units("cm")
+    # an overlay of points (sinks) drawn on the map: a scatter-mode Layer with per-point colours and a physical size
+    sp = rng.uniform(0.2, 0.6, size=(6, 3))
+    sp[:3, 2] = 0.4391                         # three of them in the plane of the z-map, three off-plane
+    sinks = osy.Vector(sp[:, 0].copy(), sp[:, 1].copy(), sp[:, 2].copy(), unit="au", name="position")
+    lay_s = Layer(sinks, mode="scatter", c=osy.Array(values=np.arange(6.0), unit="M_sun", name="msink"),
+                  s=0.02 * osy.units("au"), cmap="magma")
     objs = {"dg": dg, "res": shared_res, "origin": origin, "lay_t": lay_t, "lay_v": lay_v, "xa": xa, "ya": ya, "wa": wa,
-            "hl": hl, "lim": lim}
+            "hl": hl, "lim": lim, "lay_s": lay_s, "sinks": sinks}
     calls = {
         "map-thin": lambda: osy.map(lay_t, direction="z", dx=0.7 * osy.units("au"), origin=origin, resolution=shared_res, plot=False),
         "map-thick": lambda: osy.map(lay_t, direction="x", dx=0.7 * osy.units("au"), dz=0.4 * osy.units("au"), origin=origin,
@@ -284,6 +290,8 @@ def _sequence(osy, rng, res, i):
         # (rendered vector layers need >= 16 pixels per side: the quiver wrapper strides by round(n/32))
         "map-vec-plot": lambda: osy.map(lay_t, lay_v, direction="y", dx=0.9 * osy.units("au"), origin=origin, resolution=32,
                                         plot=True),
+        "map-scatter-overlay": lambda: osy.map(lay_t, lay_s, direction="z", dx=0.7 * osy.units("au"), origin=origin, resolution=24,
+                                               plot=True),
         "map-bad-layer": lambda: osy.map(dg["temp"], direction="z", resolution=shared_res, plot=False),
         "hist2d": lambda: osy.histogram2d(xa, ya, hl, resolution=8, xmin=lim, plot=False),
         "hist2d-plot": lambda: osy.histogram2d(xa, ya, hl, wa, resolution=8, logx=True, plot=True),
@@ -297,6 +305,8 @@ def _sequence(osy, rng, res, i):
     seq = [names[int(rng.integers(0, len(names)))] for _ in range(k)]
     if i % 4 == 0:
         seq = ["map-thin", "map-thick", "map-thin"]      # one resolution dict for thin and thick maps
+    if i % 4 == 1:
+        seq = ["map-scatter-overlay", "map-thin", "map-scatter-overlay"]
     res.digest_src = {"seq": seq, "res": dict(shared_res)}
     res.sample = {"calls": seq, "shared_resolution": dict(shared_res)}
     uses_res = sum(1 for s in seq if s.startswith("map"))
